@@ -180,6 +180,8 @@ def decision_table():
     rest = re.sub(r"\bid_t\s+\w+\s*;", " ", block)
     rest = re.sub(r"assign\s+(\w+)\s*=\s*id_t\s*'\s*\(\s*channel_i\.hdr\.dst_id\s*\)\s*;", " ", rest)
     rest = re.sub(r"assign\s+channel_o\s*=\s*channel_i\s*;", " ", rest)
+    # assertions do not take part in the decision
+    rest = re.sub(r"`ASSERT\w*\s*\((?:[^()]|\([^()]*\))*\)\s*;?", " ", rest)
     m = re.search(r"always_comb\b", rest)
     if not m or rest[:m.start()].strip():
         raise RtlError(f"unexpected text before always_comb in gen_xy_routing: {rest[:m.start() if m else 80].strip()[:80]!r}")
